@@ -322,6 +322,21 @@ Ltac csimpl := cbn [c_win c_mfs c_init c_strs c_wait c_err c_panic broadcast wit
                     set_err set_panic park fst snd s_id s_win s_body s_sent set_win took
                     gl_init gl_conn gl_mfs gl_ids gl_bodies sl_open sl_incs sl_body] in *.
 
+Lemma winupd_wake_shape : forall g ex c, exists w,
+  (w = [] \/ (w = c_wait c /\ g_wu_always g = false)) /\
+  winupd_wake g ex c = mkC (c_win c) (c_mfs c) (c_init c) (c_strs c) w (c_err c) (c_panic c).
+Proof.
+  intros g ex c. unfold winupd_wake. destruct (g_wu_always g) eqn:E; cbn [orb].
+  - exists []. split; [left; reflexivity | reflexivity].
+  - destruct ex.
+    + exists []. split; [left; reflexivity | reflexivity].
+    + exists (c_wait c). split; [right; split; reflexivity | destruct c; reflexivity].
+Qed.
+
+(* every wake-up the liveness argument needs is in the code: SETTINGS processing broadcasts (always on the server,
+   on the client iff the source has it) and WINDOW_UPDATE processing broadcasts unconditionally *)
+Definition wakes_ok (g : cfg) : Prop := (g_wakes g = true \/ g_side g = Server) /\ g_wu_always g = true.
+
 Section Invariant.
 Variable g : cfg.
 Hypothesis Hchunk : 0 < g_chunk g.
@@ -354,7 +369,7 @@ Record Inv (c : conn) (G : gled) (S : Z -> sled) (B : Prop) (fs : list frame) : 
   i_exact : B -> c_err c = false /\ c_win c + sent_total fs = gl_conn G /\
             forall s, In s (c_strs c) -> s_win s + s_sent s = c_init c + sl_incs (S (s_id s));
   (* a sender sleeps only while it has nothing to take - needs the broadcast of SETTINGS processing *)
-  i_parked : (g_wakes g = true \/ g_side g = Server) -> c_err c = false ->
+  i_parked : wakes_ok g -> c_err c = false ->
             forall s, In s (c_strs c) -> In (s_id s) (c_wait c) -> flow_available (s_win s) (c_win c) <= 0
 }.
 
@@ -377,7 +392,7 @@ Lemma inv_same : forall c c' G G' S S' (B B' : Prop) fs,
   (c_mfs c' = gl_mfs G' /\ 16384 <= c_mfs c' <= 16777215) ->
   (forall sid, S' sid = S sid) -> (B' -> B) ->
   (forall sid, In sid (c_wait c') -> has_s sid (c_strs c) = true) ->
-  ((g_wakes g = true \/ g_side g = Server) -> c_err c = false ->
+  (wakes_ok g -> c_err c = false ->
       forall s, In s (c_strs c) -> In (s_id s) (c_wait c') -> flow_available (s_win s) (c_win c) <= 0) ->
   Inv c' G' S' B' fs.
 Proof.
@@ -489,6 +504,9 @@ Proof.
                  s' = set_win (s_win s + inc) s \/ (In s' (c_strs c) /\ s_id s' <> sid)).
     { intros s' Hs'. apply (in_upd_s_nodup sid _ (c_strs c) s s'); auto. destruct I; assumption. }
     assert (Hids : map s_id (upd_s sid (set_win (s_win s + inc)) (c_strs c)) = map s_id (c_strs c)) by (apply upd_s_ids; reflexivity).
+    destruct (winupd_wake_shape g (flow_available (s_win s) (c_win c) =? 0)
+                (with_strs c (upd_s sid (set_win (s_win s + inc)) (c_strs c)))) as [w [Hw Ew]].
+    rewrite Ew. clear Ew. csimpl.
     destruct I. constructor; csimpl; try assumption.
     + rewrite Hids. assumption.
     + intros x. rewrite i_ids0. apply has_s_ids. symmetry. exact Hids.
@@ -500,12 +518,13 @@ Proof.
       * subst s'. csimpl. rewrite Hid, Hnew. unfold str_ok. csimpl. rewrite Hid.
         repeat split; try assumption; try lia.
       * rewrite Hold by exact Hne. exact (i_strs0 s' Hin').
-    + intros x [].
+    + intros x Hx. destruct Hw as [Hw | [Hw _]]; subst w; [destruct Hx|].
+      rewrite (has_s_ids x _ _ Hids). exact (i_wait0 x Hx).
     + intros HB'. destruct (HB HB') as [HB0 _]. destruct (i_exact0 HB0) as [E1 [E2 E3]].
       split; [exact E1|]. split; [exact E2|]. intros s' Hs'. destruct (Hu s' Hs') as [E | [Hin' Hne]].
       * subst s'. csimpl. rewrite Hid, Hnew. csimpl. specialize (E3 s Hin). rewrite Hid in E3. lia.
       * rewrite Hold by exact Hne. auto.
-    + intros _ _ s' _ [].
+    + intros [_ Hk] _ s' _ Hx. destruct Hw as [Hw | [_ Hw]]; [subst w; destruct Hx | congruence].
   - (* overflow: connection error, nothing stored *)
     destruct I. constructor; csimpl; try assumption.
     + intros x Hx. destruct (Z.eq_dec x sid) as [E | E].
@@ -534,11 +553,13 @@ Proof.
   assert (HS : forall x, Snext S (EWinUpdConn inc) x = S x) by reflexivity.
   destruct (flow_add_cases (c_win c) inc) as [[Ha Hr] | [Ha Hr]]; try (unfold i32_min, i32_max in *; lia);
     rewrite Ha; cbn [fst snd]; rewrite ?app_nil_r.
-  - destruct I. constructor; csimpl; try assumption; try lia.
-    + intros x []. 
+  - destruct (winupd_wake_shape g (c_win c =? 0) (with_win c (c_win c + inc))) as [w [Hw Ew]].
+    rewrite Ew. clear Ew. csimpl.
+    destruct I. constructor; csimpl; try assumption; try lia.
+    + intros x Hx. destruct Hw as [Hw | [Hw _]]; subst w; [destruct Hx | exact (i_wait0 x Hx)].
     + intros HB'. destruct (HB HB') as [HB0 _]. destruct (i_exact0 HB0) as [E1 [E2 E3]].
       split; [exact E1|]. split; [lia | exact E3].
-    + intros _ _ s' _ [].
+    + intros [_ Hk] _ s' _ Hx. destruct Hw as [Hw | [_ Hw]]; [subst w; destruct Hx | congruence].
   - destruct I. constructor; csimpl; try assumption; try lia.
     + intros s Hs. specialize (i_strs0 s Hs). unfold str_ok in *. csimpl. rewrite HS. repeat split; try tauto.
     + intros HB'. exfalso. destruct (HB HB') as [HB0 [Hb _]]. destruct (i_exact0 HB0) as [_ [E2 _]].
@@ -571,7 +592,8 @@ Proof.
   destruct (g_side g) eqn:Es.
   - replace ((v <? 16384) || (16777215 <? v)) with false by lia. cbn [fst snd]. rewrite app_nil_r.
     apply Hgoal. right. reflexivity.
-  - cbn [fst snd]. rewrite app_nil_r. apply Hgoal.
+  - replace (g_validated g && ((v <? 16384) || (16777215 <? v))) with false by (destruct (g_validated g); cbn [andb]; lia).
+    cbn [fst snd]. rewrite app_nil_r. apply Hgoal.
     destruct (Hsw (with_mfs c v)) as [[_ [Hwk E]] | E]; rewrite E; [left | right]; auto.
 Qed.
 
@@ -786,7 +808,7 @@ Proof.
     rewrite HS, Eid, Esn. specialize (X3 s J1). specialize (Hall s J1).
     destruct J3 as [[K1 K2] | [K1 [K2 K3]]]; rewrite K1; unfold inrange, d, i32_min, i32_max in *; [lia|].
     destruct K3 as [K3 | K3]; [lia | congruence].
-  - intros Hk He s' Hs' Hx. rewrite (Fpk Hk He) in Hx. destruct Hx.
+  - intros Hk He s' Hs' Hx. rewrite (Fpk (proj1 Hk) He) in Hx. destruct Hx.
 Qed.
 
 (* ------------------------------------------------------------------ any event *)
@@ -823,7 +845,7 @@ Proof.
   - destruct (snd (flow_add (c_win c) (wrap32 inc))); destruct Hf.
   - destruct ((v <? 0) || (i32_max <? v)); [destruct Hf|]. destruct (g_side g); [|destruct Hf].
     destruct (snd (add_all_stop (wrap32 (v - c_init c)) (c_strs c))); destruct Hf.
-  - destruct (g_side g); [|destruct Hf]. destruct ((v <? 16384) || (16777215 <? v)); destruct Hf.
+  - destruct (g_side g); [destruct ((v <? 16384) || (16777215 <? v)) | destruct (g_validated g && ((v <? 16384) || (16777215 <? v)))]; destruct Hf.
   - destruct (find_s sid (c_strs c)) as [s|] eqn:Ef; [|destruct Hf].
     destruct (find_s_some _ _ _ Ef) as [Hin Hid].
     destruct (mem_z sid (c_wait c)); [destruct Hf|].
@@ -995,7 +1017,7 @@ Qed.
 Section Progress.
 Variable g : cfg.
 Hypothesis Hchunk : 0 < g_chunk g.
-Hypothesis Hwk : g_wakes g = true \/ g_side g = Server.
+Hypothesis Hwk : wakes_ok g.
 
 (* with exact accounting, enough credit on both levels and the broadcast in place, one iteration of the sender
    moves min(remaining, 16384) bytes at least *)
@@ -1065,7 +1087,7 @@ Qed.
 Section Liveness.
 Variable g : cfg.
 Hypothesis Hchunk : 0 < g_chunk g.
-Hypothesis Hwk : g_wakes g = true \/ g_side g = Server.
+Hypothesis Hwk : wakes_ok g.
 Variables cw i0 m0 : Z.
 Hypothesis Hcw : 0 <= cw <= i32_max.
 Hypothesis Hi0 : 0 <= i0 <= i32_max.
@@ -1179,7 +1201,7 @@ Proof.
   rewrite Sn. unfold stream_credit. rewrite <- (proj1 (i_init _ _ _ _ _ _ I)). exact (X3 s Hs).
 Qed.
 
-Theorem flow_liveness_general : forall g, 0 < g_chunk g -> (g_wakes g = true \/ g_side g = Server) ->
+Theorem flow_liveness_general : forall g, 0 < g_chunk g -> wakes_ok g ->
   liveness_general_statement g.
 Proof.
   intros g Hc Hw cw i0 m0 pre tail sid body Hcw Hi0 Hm0. exact (flow_liveness_general_at g Hc Hw cw i0 m0 Hcw Hi0 Hm0 pre tail sid body).
@@ -1215,7 +1237,7 @@ Proof.
   intros sid k. induction k as [|k IH]; cbn [repeat count_send]; [reflexivity|]. rewrite Z.eqb_refl, IH. lia.
 Qed.
 
-Theorem flow_liveness : forall g, 0 < g_chunk g -> (g_wakes g = true \/ g_side g = Server) -> liveness_statement g.
+Theorem flow_liveness : forall g, 0 < g_chunk g -> wakes_ok g -> liveness_statement g.
 Proof.
   intros g Hc Hw cw i0 m0 evs sid body k Hcw Hi0 Hm0 Hv Hb Hop Hbd Hcr Hcc Hk.
   apply (flow_liveness_general g Hc Hw cw i0 m0 evs (repeat (ESend sid) k) sid body); try assumption.
@@ -1247,11 +1269,11 @@ Qed.
 
 (* without the broadcast in the client's SETTINGS processing a sender parked on a zero window is never woken
    by a SETTINGS frame that raises the initial window: the claim fails *)
-Theorem flow_liveness_refuted_without_wake : forall ch, 0 < ch -> ~ liveness_statement (mkCfg Client false ch).
+Theorem flow_liveness_refuted_without_wake : forall wu vd ch, 0 < ch -> ~ liveness_statement (mkCfg Client false wu vd ch).
 Proof.
-  intros ch Hch H.
+  intros wu vd ch Hch H.
   specialize (H 65535 65535 16384 [ESetInit 0; EOpen 1 100; ESend 1; ESetInit 65535] 1 100 1%nat).
-  assert (Hd : delivers 100 (frames_of 1 (snd (run (mkCfg Client false ch) (conn_new 65535 65535 16384)
+  assert (Hd : delivers 100 (frames_of 1 (snd (run (mkCfg Client false wu vd ch) (conn_new 65535 65535 16384)
                  ([ESetInit 0; EOpen 1 100; ESend 1; ESetInit 65535] ++ repeat (ESend 1) 1))))).
   { apply H; unfold i32_max; try lia.
     - repeat constructor; cbn [ev_valid]; unfold i32_max; lia.
@@ -1261,4 +1283,87 @@ Proof.
     - vm_compute. discriminate.
     - vm_compute. discriminate. }
   destruct Hd as [_ Hd]. vm_compute in Hd. discriminate.
+Qed.
+
+(* ================================================================== a checkable form of `bounded` *)
+Fixpoint prefixes (l : list event) : list (list event) :=
+  [] :: match l with [] => [] | x :: r => map (cons x) (prefixes r) end.
+
+Lemma prefixes_in : forall l p q, l = p ++ q -> In p (prefixes l).
+Proof.
+  induction l as [|x l IH]; intros p q E.
+  - destruct p; [left; reflexivity | discriminate].
+  - destruct p as [|y p]; [left; reflexivity|]. cbn [app] in E. injection E as E1 E2. subst y.
+    right. apply in_map. exact (IH p q E2).
+Qed.
+
+Definition open_ids (evs : list event) : list Z :=
+  flat_map (fun e => match e with EOpen s _ => [s] | _ => [] end) evs.
+
+Lemma sledger_unopened : forall sid p, ~ In sid (open_ids p) -> sledger sid p = mkSL false 0 0.
+Proof.
+  intros sid p. induction p as [|e p IH] using rev_ind; intros H; [reflexivity|].
+  rewrite sledger_snoc. unfold open_ids in H. rewrite flat_map_app in H. fold (open_ids p) in H.
+  rewrite IH by (intro Hi; apply H; apply in_or_app; left; exact Hi).
+  destruct e; cbn [sstep sl_open andb]; try reflexivity.
+  - destruct (sid0 =? sid) eqn:E; [|reflexivity]. exfalso. apply H. apply in_or_app. right.
+    cbn [flat_map app]. left. lia.
+  - rewrite andb_false_r. reflexivity.
+Qed.
+
+Lemma open_ids_prefix : forall p q sid, In sid (open_ids p) -> In sid (open_ids (p ++ q)).
+Proof. intros p q sid H. unfold open_ids. rewrite flat_map_app. apply in_or_app. left. exact H. Qed.
+
+Definition boundedb (cw i0 m0 : Z) (evs : list event) : bool :=
+  forallb (fun p => (conn_credit cw i0 m0 p <=? i32_max) && (gl_init (gledger cw i0 m0 p) <=? i32_max) &&
+                    forallb (fun sid => stream_credit cw i0 m0 sid p <=? i32_max) (open_ids evs)) (prefixes evs).
+
+Lemma boundedb_sound : forall cw i0 m0 evs, boundedb cw i0 m0 evs = true -> bounded cw i0 m0 evs.
+Proof.
+  intros cw i0 m0 evs H p q E. unfold boundedb in H. rewrite forallb_forall in H.
+  specialize (H p (prefixes_in evs p q E)). apply andb_true_iff in H. destruct H as [H H3].
+  apply andb_true_iff in H. destruct H as [H1 H2].
+  split; [lia|]. intros sid.
+  destruct (in_dec Z.eq_dec sid (open_ids evs)) as [Hi | Hn].
+  - rewrite forallb_forall in H3. specialize (H3 sid Hi). lia.
+  - unfold stream_credit. rewrite sledger_unopened; [cbn [sl_incs]; lia|].
+    intro Hi. apply Hn. rewrite E. apply open_ids_prefix. exact Hi.
+Qed.
+
+(* ================================================================== conditional wake-up in processWindowUpdate *)
+(* `if exhausted { cond.Broadcast() }` with exhausted := available() == 0 before the add: a stream window driven
+   NEGATIVE by a SETTINGS decrease below the bytes already sent is not "exhausted", so the WINDOW_UPDATE that
+   lifts it back above zero wakes nobody.  Witness: 100000-byte body; the initial window 65535 is used up and the
+   sender parks; SETTINGS_INITIAL_WINDOW_SIZE = 1000 (window -64535; whoever is woken re-parks);
+   WINDOW_UPDATE +99000 (window 34465, stream credit 100000 = body): the sender sleeps on. *)
+Definition cond_wake_witness : list event :=
+  [EWinUpdConn 1000000; EOpen 1 100000; ESend 1; ESend 1; ESend 1; ESend 1; ESend 1;
+   ESetInit 1000; ESend 1; EWinUpd 1 99000].
+
+Theorem flow_liveness_refuted_with_conditional_wake : forall sd wk vd ch, 0 < ch ->
+  ~ liveness_statement (mkCfg sd wk false vd ch).
+Proof.
+  intros sd wk vd ch Hch H.
+  specialize (H 65535 65535 16384 cond_wake_witness 1 100000 8%nat).
+  assert (Hd : delivers 100000 (frames_of 1 (snd (run (mkCfg sd wk false vd ch) (conn_new 65535 65535 16384)
+                 (cond_wake_witness ++ repeat (ESend 1) 8))))).
+  { apply H; unfold i32_max; try lia.
+    - apply Forall_forall. intros x Hx. unfold cond_wake_witness in Hx.
+      repeat (destruct Hx as [Hx | Hx]; [subst x; cbn [ev_valid]; unfold i32_max; lia|]). destruct Hx.
+    - apply boundedb_sound. vm_compute. reflexivity.
+    - reflexivity.
+    - reflexivity.
+    - vm_compute. discriminate.
+    - vm_compute. discriminate. }
+  destruct Hd as [_ Hd].
+  (* chunking is symbolic in ch: count bytes through the accounting instead of evaluating the frames *)
+  assert (Hv : Forall ev_valid (cond_wake_witness ++ repeat (ESend 1) 8)).
+  { apply Forall_forall. intros x Hx. unfold cond_wake_witness in Hx. cbn [repeat app] in Hx.
+    repeat (destruct Hx as [Hx | Hx]; [subst x; cbn [ev_valid]; unfold i32_max; lia|]). destruct Hx. }
+  pose proof (inv_run (mkCfg sd wk false vd ch) 65535 65535 16384 Hch ltac:(unfold i32_max; lia) ltac:(unfold i32_max; lia) ltac:(lia) _ Hv) as I.
+  set (c := fst (run (mkCfg sd wk false vd ch) (conn_new 65535 65535 16384) (cond_wake_witness ++ repeat (ESend 1) 8))) in *.
+  assert (Hs : In (mkS 1 34465 100000 65535) (c_strs c)).
+  { subst c. destruct sd; destruct wk; vm_compute; left; reflexivity. }
+  destruct (i_strs _ _ _ _ _ _ I _ Hs) as [_ [_ [_ [_ [_ [_ [_ [_ Sn]]]]]]]].
+  cbn [s_id s_sent] in Sn. unfold sent_on in Sn. rewrite Sn in Hd. discriminate Hd.
 Qed.
